@@ -304,7 +304,15 @@ func zzC10Route() {
 	zzSrv8 = env
 	jsonMode := vBool("jsonResponse")
 	stateless := vBool("stateless")
-	c := zzConnect(nil, stateless, jsonMode)
+	// with or without an event store — one whose Append fails (a transient fault of a custom or remote store): storing
+	// for replay is best effort, the message still goes out on the live exchange, and whatever Write reports is about
+	// this message only (it wraps ErrRejected): a plain error would make jsonrpc2 tear the connection down behind the
+	// HTTP handler's back, leaving a dead session id that is still honoured (C11)
+	var store EventStore
+	if vBool("eventStoreWhoseAppendFails") {
+		store = zzFailingStore{}
+	}
+	c := zzConnect(store, stateless, jsonMode)
 	// a stateful endpoint whose server suppresses session ids (GetSessionID returns ""): each POST is served by a
 	// session nobody can address afterwards — like a stateless one it can never receive the answer to a call it sends
 	unaddressable := !stateless && vBool("sessionIDsSuppressed")
@@ -365,6 +373,7 @@ func zzC10Route() {
 		msg = &jsonrpc.Request{ID: jsonrpc2.Int64ID(77), Method: "sampling/createMessage", Params: vJSON("q")}
 	}
 	err := c.Write(ctx, msg)
+	vAssert(err == nil || errors.Is(err, jsonrpc2.ErrRejected), "C11.write-failures-are-about-the-message-never-the-connection")
 	nA, nB, nS := len(wA.events)+len(wA.raw), len(wB.events)+len(wB.raw), len(wS.events)+len(wS.raw)
 	_ = sA
 	_ = sB
@@ -421,6 +430,14 @@ func zzC10Route() {
 
 
 // ---------------------------------------------------------------- C10/C02: registration of a POST's calls
+
+type zzFailingStore struct{ EventStore }
+
+func (zzFailingStore) Open(context.Context, string, string) error { return nil }
+func (zzFailingStore) Append(context.Context, string, string, []byte) error {
+	return errors.New("event store: write failed")
+}
+func (zzFailingStore) SessionClosed(context.Context, string) error { return nil }
 
 type zzOpenStore struct {
 	EventStore
